@@ -522,6 +522,11 @@ Definition propagate (sc : scid) (exc : option exn) : prog :=
         match propagate_pure (s_failures s) own exc with
         | PSwallow => okv o (VB false)
         | PReraise => okv o (VB true)
+        | PRaise (EConcurrent l) =>
+            (* Concurrent(...) asserts that its children are Exception (or Concurrent) instances; an internal
+               signal recorded as a child failure (only possible downstream of finding D11) trips it *)
+            if existsb (fun e => match e with ESig _ | EGenExit | EBreak => true | _ => false end) l
+            then err o EAssertion else err o (EConcurrent l)
         | PRaise p => err o p
         end).
 
@@ -633,3 +638,195 @@ Definition scope_do (sc : scid) (tname : nat) (start : startspec) (volatile : bo
                       else s <| s_children := s_children s ++ [t] |> in
             let o3 := set_scope (o2 <| tasks := tasks o2 ++ [rec] |> <| tnames := (tname, t) :: tnames o2 |>) sc s' in
             mkpres o3 [KNow a None] [(a, task_wrapper t start' payload)] (inl (VN t))).
+
+(** ** allocation of locks / queues / channels *)
+Definition alloc_lock (o : objs) : objs :=
+  let '(o1, n) := alloc_notif o NPlain in
+  o1 <| locks := locks o1 ++ [{| l_owner := None; l_depth := 0%Z; l_notif := n |}] |>.
+
+Definition alloc_queue (o : objs) : objs :=
+  let '(o1, n) := alloc_notif o NPlain in
+  let m := length (locks o1) in
+  let o2 := alloc_lock o1 in
+  o2 <| queues := queues o2 ++ [{| q_buf := []; q_notif := n; q_mutex := m; q_closed := false |}] |>.
+
+
+Definition dchan : chanrec := {| c_bufs := []; c_notif := 0; c_closed := false; c_next := 0 |}.
+Definition get_chan (o : objs) c := nth c (chans o) dchan.
+Definition set_chan (o : objs) c x : objs := o <| chans := list_upd (chans o) c x |>.
+Definition alloc_chan (o : objs) : objs :=
+  let '(o1, n) := alloc_notif o NPlain in
+  o1 <| chans := chans o1 ++ [{| c_bufs := []; c_notif := n; c_closed := false; c_next := 0 |}] |>.
+
+(** ** async iteration *)
+(** [async for x in G: body x] -- the generator object is finalised as soon as the loop is left
+    (CPython reference counting; no asyncgen hooks are installed by usim's loop) *)
+Definition For (G : prog) (body : val -> prog) : prog :=
+  g <- GenNew G ;; let g := vnat g in
+  r <- Catch (LoopS VU (fun _ => v <- GenNext g ;;
+                                 match v with
+                                 | VYield x => body x ;;; Ret (VCont VU)
+                                 | _ => Ret (VBreak VU)
+                                 end))
+             (fun e => GenClose g ;;; match e with EBreak => Ret VU | _ => Raise e end) ;;
+  GenClose g ;;; Ret r.
+
+(** the same with `if iterations == n: break` at the end of the body (n = 0: no limit) *)
+Definition ForN (G : prog) (n : nat) (body : val -> prog) : prog :=
+  g <- GenNew G ;; let g := vnat g in
+  r <- Catch (LoopS (VN 0) (fun i => v <- GenNext g ;;
+                                 match v with
+                                 | VYield x => body x ;;;
+                                               (if negb (Nat.eqb n 0) && Nat.leb n (S (vnat i)) then Ret (VBreak VU)
+                                                else Ret (VCont (VN (S (vnat i)))))
+                                 | _ => Ret (VBreak VU)
+                                 end))
+             (fun e => GenClose g ;;; match e with EBreak => Ret VU | _ => Raise e end) ;;
+  GenClose g ;;; Ret r.
+
+(** [Queue.__aiter__] *)
+Definition queue_iter (q : nat) : prog :=
+  LoopS VU (fun _ =>
+    r <- Catch (v <- queue_get q ;; Ret (VYield v))
+               (fun e => match e with EStreamClosed _ => Ret VEnd | _ => Raise e end) ;;
+    match r with
+    | VYield v => Yield v ;;; Ret (VCont VU)
+    | _ => Ret (VBreak VU)
+    end).
+
+(** [interval(period)] *)
+Definition interval_gen (p : xtime) : prog :=
+  if xltb p (Fin 0) then Raise EValueError
+  else
+  Dyn (fun o _ =>
+    LoopS (VX (onow o)) (fun last =>
+      Dyn (fun o _ =>
+        let last := match last with VX t => t | _ => Fin 0 end in
+        let target := xadd last p in
+        (* remaining_delay = last_time + period - time.now *)
+        (if xltb target (onow o) then Raise EIntervalExceeded
+         else if xltb (onow o) target then suspend_delay (xsub target (onow o))
+         else postpone) ;;;
+        Dyn (fun o _ => Yield (VX (onow o)) ;;; Ret (VCont (VX (onow o))))))).
+
+(** [delay(period)] *)
+Definition delay_gen (p : xtime) : prog :=
+  if xltb p (Fin 0) then Raise EValueError
+  else
+  LoopS VU (fun _ =>
+    (if xltb (Fin 0) p then suspend_delay p else postpone) ;;;
+    Dyn (fun o _ => Yield (VX (onow o)) ;;; Ret (VCont VU))).
+
+(** ** Channel *)
+Definition chan_put (c : nat) (z : Z) : prog :=
+  Do (fun o _ =>
+        let x := get_chan o c in
+        if c_closed x then err o (EStreamClosed (1000 + c))
+        else let o1 := set_chan o c (x <| c_bufs := map (fun '(k, b) => (k, b ++ [z])) (c_bufs x) |>) in
+             let '(o2, ks) := awake_all o1 (c_notif x) in okk o2 ks) ;;;
+  postpone.
+Definition chan_close (c : nat) : prog :=
+  Do (fun o _ =>
+        let x := get_chan o c in
+        if c_closed x then oku o
+        else let '(o1, ks) := awake_all (set_chan o c (x <| c_closed := true |>)) (c_notif x) in okk o1 ks) ;;;
+  postpone.
+Definition chan_register (c : nat) : prog :=
+  Do (fun o _ => let x := get_chan o c in
+                 okv (set_chan o c (x <| c_bufs := c_bufs x ++ [(c_next x, [])] |> <| c_next := S (c_next x) |>))
+                     (VN (c_next x))).
+Definition chan_unregister (c : nat) (k : nat) : prog :=
+  Upd (fun o => let x := get_chan o c in
+                set_chan o c (x <| c_bufs := filter (fun '(k', _) => negb (Nat.eqb k k')) (c_bufs x) |>)).
+Definition chan_buf (o : objs) (c k : nat) : list Z :=
+  match assoc_nat k (c_bufs (get_chan o c)) with Some b => b | None => [] end.
+(** [Channel.__await__] *)
+Definition chan_get (c : nat) : prog :=
+  Dyn (fun o _ =>
+    if c_closed (get_chan o c) then Raise (EStreamClosed (1000 + c))
+    else
+      k <- chan_register c ;; let k := vnat k in
+      (* the buffer object survives the `del`: read it before unregistering *)
+      r <- Catch (notif_await (c_notif (get_chan o c)) ;;; Dyn (fun o _ =>
+                    match chan_buf o c k with
+                    | z :: _ => Ret (VZ z)
+                    | [] => Ret (VB (c_closed (get_chan o c)))
+                    end))
+                 (fun e => chan_unregister c k ;;; Raise e) ;;
+      chan_unregister c k ;;;
+      match r with
+      | VZ z => Ret (VZ z)
+      | VB true => Raise (EStreamClosed (1000 + c))
+      | _ => Raise (ERuntime 7)     (* IndexError: woken without a message *)
+      end).
+(** [Channel.__aiter__] (with fix D15: one suspension before every message) *)
+Definition chan_pop (c k : nat) : prog :=
+  Do (fun o _ =>
+        match chan_buf o c k with
+        | z :: r =>
+            let x := get_chan o c in
+            okv (set_chan o c (x <| c_bufs := map (fun '(k', b) => if Nat.eqb k k' then (k', r) else (k', b)) (c_bufs x) |>))
+                (VZ z)
+        | [] => err o (ERuntime 7)
+        end).
+Definition chan_iter (c : nat) : prog :=
+  k <- chan_register c ;; let k := vnat k in
+  Finally
+    (LoopS VU (fun _ =>
+       Dyn (fun o _ =>
+         match chan_buf o c k with
+         | _ :: _ => postpone ;;; v <- chan_pop c k ;; Yield v ;;; Ret (VCont VU)
+         | [] => if c_closed (get_chan o c) then Ret (VBreak VU)
+                 else notif_await (c_notif (get_chan o c)) ;;;
+                      Dyn (fun o _ => match chan_buf o c k with
+                                      | [] => Ret (VCont VU)
+                                      | _ => v <- chan_pop c k ;; Yield v ;;; Ret (VCont VU)
+                                      end)
+         end)))
+    (chan_unregister c k).
+
+(** ** collect / first (usim/_concurrent/basics.py) *)
+(** [Scope.do] for the tasks created inside [collect]/[first]: not reachable by name from scenario code *)
+Definition scope_do_anon (sc : scid) (tname : nat) (volatile : bool) (payload : prog) : prog :=
+  t <- scope_do sc tname StartNow volatile payload ;;
+  Upd (fun o => o <| tnames := tl (tnames o) |>) ;;; Ret t.
+
+Fixpoint spawn_all (sc : scid) (volatile : bool) (acts : list (nat * prog)) (wrap : prog -> prog) : prog :=
+  match acts with
+  | [] => Ret VU
+  | (tn, p) :: r => scope_do_anon sc tn volatile (wrap p) ;;; spawn_all sc volatile r wrap
+  end.
+
+(** results of the tasks [t0, t0 + n) in order: [[await task for task in tasks]] *)
+Fixpoint await_all (ts : list tid) (acc : list val) : prog :=
+  match ts with
+  | [] => Ret VU
+  | t :: r => task_await t ;;; await_all r acc
+  end.
+
+(** [first(activities..., count=k)] as a generator body *)
+Definition first_gen (scname : nat) (k : option nat) (acts : list (nat * prog)) : prog :=
+  let count := match k with Some c => c | None => length acts end in
+  if Nat.ltb (length acts) count then Raise EValueError
+  else
+    q <- Do (fun o _ => okv (alloc_queue o) (VN (length (queues o)))) ;; let q := vnat q in
+    scope_block scname None
+      (Dyn (fun o _ =>
+         match assoc_nat scname (snames o) with
+         | Some sc => spawn_all sc true acts (fun p => v <- p ;; queue_put q (match v with VZ z => z | _ => 0%Z end))
+         | None => Ret VU
+         end) ;;;
+       (* a.islice(results, count) *)
+       match count with
+       | O => Ret VU
+       | S _ =>
+           g <- GenNew (queue_iter q) ;; let g := vnat g in
+           Finally
+             (LoopS (VN 0) (fun idx =>
+                v <- GenNext g ;;
+                match v with
+                | VYield x => Yield x ;;; (if Nat.leb count (S (vnat idx)) then Ret (VBreak VU) else Ret (VCont (VN (S (vnat idx)))))
+                | _ => Ret (VBreak VU)
+                end))
+             (GenClose g)
+       end).
